@@ -40,6 +40,14 @@ func (ids *mempoolIDs) ReserveForPeer(peer p2p.Peer) {
 	ids.mtx.Lock()
 	defer ids.mtx.Unlock()
 
+	if _, ok := ids.peerMap[peer.ID()]; ok {
+		// The switch calls InitPeer before it finds out that a peer with this ID
+		// is already connected (simultaneous dial and accept) and does not call
+		// RemovePeer for the connection it drops: keep the ID the node already
+		// has instead of leaking a second one.
+		return
+	}
+
 	curID := ids.nextPeerID()
 	ids.peerMap[peer.ID()] = curID
 	ids.activeIDs[curID] = struct{}{}
